@@ -8,7 +8,7 @@ def plan(tier, seed):
     quick = tier == "quick"
     net = runner.net_path("material", 1)
     shards = [dict(bin=("opt", "c10"), args=["--cases", 50 if quick else 6000, "--dfs-scripts", 1 if quick else 40,
-                                             "--dfs-points", 24 if quick else 0])
+                                             "--dfs-points", 24 if quick else 0, "--tree-cases", 8 if quick else 1500])
               for _ in range(16)]
     return dict(
         builds=[("opt", "c10")],
@@ -21,10 +21,13 @@ def plan(tier, seed):
               "(now / after k scheduling steps / after n bestmoves / after N main-thread nodes / after k info lines) x Threads 1..8 x schedules: "
               "fair round-robin baseline, uniform random, PCT priorities with 1..4 change points (sub-property 'schedules'); and bounded "
               "systematic exploration (sub-property 'preempt-1'): baseline run, then one deviation from the baseline at each (quick: sampled; "
-              "thorough: every) decision point. Scheduling points: Communicator::poll, before every queued inter-thread command, cv waits, "
+              "thorough: every) decision point; and sub-property 'helper-tree': Threads 6..10 (a helper thread has helper children), 2..6 short "
+              "searches per script on roots where helpers search or idle (mate, stalemate, bare kings), stops within 0..60 steps of the go, "
+              "random / PCT schedules with every 1st..3rd mutex acquisition and every notification a scheduling point. Scheduling points: Communicator::poll, before every queued inter-thread command, cv waits, "
               "sleeps, thread start/exit/join, reading a command. Non-trivial = run (distinct by script+schedule) with helper threads and "
               ">= 1 choice that differs from the fair baseline."),
-        floors={"helper threads + >=1 pre-emption": 100, "has ponderhit": 25, "ends with EOF": 15},
+        floors={"helper threads + >=1 pre-emption": 100, "has ponderhit": 25, "ends with EOF": 15,
+                "two-level helper tree (Threads >= 6), pre-emptive schedule, mutex scheduling points": 60},
         assumptions=["in-process engine via the public UCIProtocol::main with std::cin/std::cout redirected, one forked child per run",
                      "mutex-protected sections contain no scheduling point and are therefore atomic (lock discipline is judged by C09 under TSan)",
                      "bounded exploration: sampled schedules + at most one deviation from the baseline per systematic run; MPI cluster code is compiled out",
